@@ -120,4 +120,22 @@ CHECKS = {
                          'Go regexp semantics (leftmost-first) is mirrored by the matchers, checked only by the differential run', 'io.ReadAll semantics'],
         'assumptions': ['only the layout tokens, strings, raw strings, comments and identifiers are modelled; the rest of the token table and the LALR parser are exercised by the padded/chunked real programs'],
     },
+    'C17': {
+        'lean_modules': ['Pangaea.Theorems.C17'],
+        'theorem_modules': ['Pangaea.Theorems.C17'],
+        'generated_by_harness': ['C16'],
+        'theorems': ['Pangaea.C17.valueOf_cons', 'Pangaea.C17.int_literal_exact', 'Pangaea.C17.int_literal_rejects_overflow', 'Pangaea.C17.exp_int_exact',
+                     'Pangaea.C17.unquote_quote', 'Pangaea.C17.undefined_escape_rejected', 'Pangaea.C17.identifier_is_one_token',
+                     'Pangaea.C17.keyword_prefix_is_identifier', 'Pangaea.C17.no_letter_pattern_before_ident'],
+        'harness': ['C17'],
+        'shards': 8,
+        'spec_is_function': True,
+        'rule': 'single-literal programs: integer literals in 5 spellings of 4 bases with random `_` separators and leading zeros, values biased to 2^53, 2^63-1, 2^63, 2^64, 10^20; exponent-form integers (positive and '
+                'negative exponents); float literals plain and with exponent vs the correctly rounded strconv.ParseFloat (bit equality); double-quoted strings over an alphabet with every single-character escape, '
+                '10 undefined escapes, multi-byte characters; names: every keyword x 10 suffix/prefix shapes, random members of the identifier pattern, underscore-led names, each as variable, property and symbol. '
+                'non-trivial: value > 255 / exponent > 0 / body has a backslash / every name; distinct by source',
+        'trusted_base': [KERNEL, AX, TIE, 'model Pangaea/Syntax/Literal.lean mirrors the semantic actions of parser.go.y (strconv.ParseInt/Unquote by documented behaviour, math/big exact)',
+                         'float rounding is a parameter: floats are only compared with strconv.ParseFloat in the harness'],
+        'assumptions': ['numeric escapes (\\x, \\u, \\U, octal) are not modelled (skipped as unsupported)', 'negative exponents truncate toward zero as parser/y_test.go pins (1e-3 = 0)'],
+    },
 }
